@@ -18,11 +18,11 @@ use crate::spec::*;
 
 pub const TOP_FIELDS: &[&str] = &[
     "f1", "f2", "f3", "f1", "f2", "n1", "n2", "b1", "o1.x", "o1.y", "o1.p.q", "arr[0]", "arr[1]", "#h",
-    "two words", "z1",
+    "two words", "z1", "o1.l[0]", "o1.l[1]",
 ];
-pub const NEST_HOLDERS: &[&str] = &["o1", "objs", "o1.p", "objs[0]"];
+pub const NEST_HOLDERS: &[&str] = &["o1", "objs", "o1.p", "objs[0]", "o1", "objs", "o1.m[1]"];
 pub const INNER_FIELDS: &[&str] = &["x", "y", "n", "p.q", "x", "y"];
-pub const CAST_FIELDS: &[&str] = &["n1", "n2", "f1", "b1", "o1.x", "arr[0]", "z1", "n1", "n2", "not.before", "or.x"];
+pub const CAST_FIELDS: &[&str] = &["n1", "n2", "f1", "b1", "o1.x", "arr[0]", "z1", "n1", "n2", "not.before", "or.x", "o1.l[1]"];
 pub const IDENT_NAMES_PLAIN: &[&str] = &["A", "B", "C", "D", "E", "F"];
 pub const IDENT_NAMES_KEYWORDY: &[&str] =
     &["android", "order", "nothing", "allow", "offline", "integer", "stringent", "notes", "flt1", "of_x", "or.else", "and.x", "not#1", "and[0]", "or#", "not.before"];
@@ -936,8 +936,13 @@ pub fn same_field_docs(field: &str) -> Vec<DObj> {
 /// Wide or-groups: many entries on one field (around the optimiser's 256-entry matrix guard) or
 /// many distinct fields (matrix column keys beyond the ASCII range), as a sequence identifier.
 pub fn rule_wide() -> BoxedStrategy<RuleSpec> {
+    rule_wide_sized(vec![100usize, 127, 128, 129, 140, 200, 254, 255, 256, 257, 258, 300, 300, 320, 380])
+}
+
+/// Sizes just above 128 and 256 are where a column key needs a second byte / no longer fits one.
+pub fn rule_wide_sized(sizes: Vec<usize>) -> BoxedStrategy<RuleSpec> {
     (
-        prop::sample::select(vec![100usize, 127, 128, 129, 140, 200, 254, 255, 256, 257, 258, 300, 300, 320, 380]),
+        prop::sample::select(sizes),
         prop::sample::select(vec![0u8, 1, 1, 1, 2]),
         any::<bool>(),
         any::<u8>(),
@@ -993,6 +998,19 @@ pub fn wide_docs(rule: &RuleSpec, picks: &[u16]) -> Vec<DObj> {
             place(&mut d, &leaves[i + 1], Some(value_for(&leaves[i + 1], true, 0)), false);
         }
         place(&mut d, &leaves[i], Some(value_for(&leaves[i], true, (*p % 3) as u8)), false);
+        out.push(d);
+    }
+    // dense documents: many of the rule's fields at once (a value cached for one column can then be
+    // mistaken for another's)
+    for (k, p) in picks.iter().take(3).enumerate() {
+        let mut d = DObj::default();
+        for (i, leaf) in leaves.iter().enumerate() {
+            let h = mix(*p as u64, i as u64);
+            if h % (k as u64 + 2) == 0 {
+                continue;
+            }
+            place(&mut d, leaf, Some(value_for(leaf, h % 5 != 0, (h >> 8) as u8 % 3)), false);
+        }
         out.push(d);
     }
     out
